@@ -76,6 +76,17 @@ theorem get_push_size (s : Store) (o : Option Obj) : (s.push o).get s.size = o :
 theorem get_write_ne (s : Store) (j k : Nat) (o : Obj) (h : j ≠ k) : (s.write j o).get k = s.get k := by
   simp [get, write, List.getElem?_set_ne h]
 
+theorem lt_size_of_get (s : Store) (k : Nat) (o : Obj) (h : s.get k = some o) : k < s.size := by
+  rcases Nat.lt_or_ge k s.size with hk | hk
+  · exact hk
+  · simp only [size] at hk
+    simp [get, List.getElem?_eq_none hk] at h
+
+/-- after the caller overwrote handle `k` the handle holds exactly what was written -/
+theorem get_write_eq (s : Store) (k : Nat) (o : Obj) (h : k < s.size) : (s.write k o).get k = some o := by
+  simp only [size] at h
+  simp [get, write, h]
+
 theorem size_ret (s : Store) (r : Except Err Bits) : (s.ret r).1.size = s.size + 1 := by
   cases r <;> simp [ret, size_push]
 
